@@ -12,25 +12,41 @@ CLAIM = dict(
           "independently written semantics of the region word (level in bits 17:16, base masked to the level, 16 block "
           "bits), every requested core of every requested chip exactly once and nothing else; the list is strictly "
           "increasing in (region, core mask), hence in (region << 32) | mask and (region << 18) | mask; a level-3 word "
-          "from get_region_for_chip selects that chip only. Tied to rig/machine_control/regions.py by exact list "
-          "equality (plus tree state, add_core return values and generator order) on generated target sets per run, "
-          "with the Lean word semantics evaluated on the implementation's own pairs."),
+          "from get_region_for_chip selects that chip only. For a tree constructed directly at any level (public class "
+          "RegionCoreTree) every in-square insertion sequence keeps the invariant and the node's set plus the squares of "
+          "the cores it reported full is exactly the inserted set (subtree_insert). The executable oracle the driver runs on the "
+          "implementation's own output is proved to decide exactly these predicates for all inputs (exactB_iff, "
+          "nodupB_iff, strictB_iff). The word semantics is proved identical to the one C09's machine model uses "
+          "(c09_selects_agree) and the output is proved to meet the contract C09's load theorems assume of "
+          "compress_flood_fill_regions (c09_regions_contract, c09_compressOK). Tied to rig/machine_control/regions.py by "
+          "exact list equality (plus tree state, add_core return values and generator order) on generated target sets "
+          "per run, with the proved oracle evaluated on the implementation's own pairs."),
     design="3/C12",
-    note=("Insertion order (dict/set iteration) is an explicit input of the model and universally quantified in the "
-          "theorems. Out-of-range coordinates/cores raise ValueError in code and model."),
+    note=("Proved: everything above, about the Lean model and the Lean specification. Validated only (differential "
+          "testing, every run): that the Lean model computes what regions.py computes. Trusted: that SC&MP reads a "
+          "region word as documented. Insertion order (dict/set iteration) is an explicit input of the model and "
+          "universally quantified in the theorems. Out-of-range coordinates/cores raise ValueError in code and model. "
+          "regions.py has no public function besides get_region_for_chip, compress_flood_fill_regions and "
+          "RegionCoreTree (__init__, add_core, get_regions_and_coremasks); all are modelled and compared."),
     technique="Lean 4 theorems over a hand-written model + differential correspondence + Lean spec as oracle")
 
 THEOREMS = ["region_word_selects", "single_chip", "add_inv", "insert_all", "compress_ok", "compress_err",
-            "compress_exact", "exact_select_iff", "compress_sorted", "compress_keys", "chipsOf_spec"]
+            "compress_exact", "exact_select_iff", "compress_sorted", "compress_keys", "chipsOf_spec",
+            "exactB_iff", "nodupB_iff", "strictB_iff", "oracle_decides",
+            "c09_selects_agree", "c09_selectsCore_agree", "c09_strictlyIncreasing_agree",
+            "c09_regions_contract", "c09_compressOK", "subtree_insert", "emit_not_sorted"]
 
 RULE = ("target sets built from shapes: sparse points (whole grid or a small window), aligned full blocks of side "
         "4/16/64 (and 256 in the thorough tier) for a random core set with 0-3 holes (a hole removes some or all cores "
         "of one chip), blocks shifted off their alignment so they straddle level boundaries, windows where "
         "neighbouring chips get different core sets, and unions of 2-4 such shapes; dictionary and set insertion "
         "order shuffled; a separate malformed stream (x, y = -1/256, p = -1/18) for the ValueError branch; "
-        "get_region_for_chip on random and edge (x, y, level). A case is non-trivial when the output contains a "
-        "region word of level < 3 (at least one collapse of sixteen children) or >= 2 pairs; distinct = distinct "
-        "canonical case JSON")
+        "get_region_for_chip on random and edge (x, y, level); trees constructed directly as RegionCoreTree(base_x, "
+        "base_y, level) for every level, squares filled completely for some cores with the holes filled last (add_core "
+        "returns True below the root), re-insertion after a mask was cleared, chips just outside the square, some "
+        "unaligned bases. A case is non-trivial when the output contains a "
+        "region word of level < 3 (at least one collapse of sixteen children) or >= 2 pairs, for a directly constructed "
+        "tree when some add_core returned True; distinct = distinct canonical case JSON")
 
 CORE_SETS = [[0], [1], [17], [0, 1], [1, 2, 3], [0, 17], list(range(1, 17)), list(range(18)),
              [5, 6, 7, 8], [2], [16, 17]]
@@ -135,6 +151,41 @@ def gen_malformed(rng):
     return c
 
 
+def gen_subtree(rng):
+    """a tree constructed directly as RegionCoreTree(base_x, base_y, level) (public class): explicit insertion
+    list; squares filled completely for some cores (add_core returns True below the root and clears the mask),
+    holes filled last, sparse points, now and then a chip just outside the square (ValueError of a non-root node)
+    or an unaligned base (correspondence only)."""
+    level = rng.choice([0, 1, 2, 2, 3, 3, 3])
+    scale = 4 ** (4 - level)
+    bx, by = rng.randrange(256 // scale) * scale, rng.randrange(256 // scale) * scale
+    if level and rng.random() < 0.12:
+        bx, by = bx + rng.choice([1, 2, 3, scale // 2]), by + rng.choice([0, 1, scale - 1])
+        bx, by = min(bx, 255), min(by, 255)
+    pts = []
+    r = rng.random()
+    full_side = scale if (level >= 2 or (level == 1 and r < 0.25)) else scale // 4
+    if r < 0.75:
+        cores = rand_cores(rng)[:rng.choice([1, 1, 2, 3]) if full_side <= 16 else 1]
+        ox, oy = bx + rng.randrange(scale // full_side) * full_side, by + rng.randrange(scale // full_side) * full_side
+        block = [[x, y, p] for x in range(ox, ox + full_side) for y in range(oy, oy + full_side) for p in cores]
+        rng.shuffle(block)
+        k = rng.choice([0, 0, 1, 2, 5])
+        held, block = block[:k], block[k:]
+        pts += block
+        if rng.random() < 0.7:
+            pts += held                     # the holes are filled last: the node becomes full now
+        if rng.random() < 0.5 and pts:
+            pts += [list(rng.choice(pts)) for _ in range(3)]      # again after the mask was cleared
+    for _ in range(rng.choice([0, 1, 3, 8])):
+        pts.append([bx + rng.randrange(scale), by + rng.randrange(scale), rng.randrange(18)])
+    if rng.random() < 0.15:
+        bad = rng.choice([[bx - 1, by, 0], [bx + scale, by, 1], [bx, by + scale, 2], [bx, by - 1, 17],
+                          [bx, by, 18], [bx, by, -1], [bx + scale - 1, by + scale, 3]])
+        pts.insert(rng.randrange(len(pts) + 1), bad)
+    return {"kind": "subtree", "x": bx, "y": by, "level": level, "points": pts}
+
+
 def build_targets(case):
     """shapes -> {(x, y): set(cores)} with shuffled insertion order; a shrunk
     case lists its points explicitly, in insertion order."""
@@ -202,6 +253,21 @@ def impl_tree(order):
         return {"err": "Other " + type(e).__name__}
 
 
+def impl_subtree(bx, by, level, order):
+    from rig.machine_control import regions
+    t = regions.RegionCoreTree(bx, by, level)
+    rets = []
+    try:
+        for (x, y, p) in order:
+            rets.append(bool(t.add_core(x, y, p)))
+        return {"ok": {"tree": dump_tree(t), "returns": rets,
+                       "yield": [[int(r), int(m)] for (r, m) in t.get_regions_and_coremasks()]}}
+    except ValueError:
+        return {"err": "ValueError"}
+    except Exception as e:  # noqa
+        return {"err": "Other " + type(e).__name__}
+
+
 def impl_region(x, y, level):
     from rig.machine_control import regions
     try:
@@ -255,6 +321,8 @@ def judge(ctx, points_list):
             keys.append({"exception-on-valid-targets"})
         else:
             o = next(reps)
+            if not o["nodup"]:
+                raise RuntimeError("harness error: the oracle was given a target list with repetitions")
             keys.append({k for k, bad in (("not-exact", not o["exact"] or bool(o["bad"])),
                                           ("not-increasing", not o["sorted"])) if bad})
     return keys
@@ -284,7 +352,24 @@ def shrink(ctx, case, key):
     return {"kind": "compress", "points": pts}
 
 
+WORKERS = 4         # worker processes (implementation + model driver per batch); results do not depend on it
+
+
+def work(batch):
+    """one batch, in a worker process or inline: run the implementation, then the model driver on the requests.
+    A pure function of the batch (all randomness was consumed when the cases were generated)."""
+    from harness import common
+    reqs, idx = prepare(batch)
+    return batch, idx, common.Driver().run(reqs), len(reqs)
+
+
 def eval_cases(ctx, cases):
+    reqs, idx = prepare(cases)
+    finish(ctx, cases, idx, ctx.lean(reqs))
+
+
+def prepare(cases):
+    """run the implementation on every case and build the model / oracle requests"""
     reqs, idx = [], []
     for c in cases:
         if c["kind"] == "region":
@@ -294,6 +379,12 @@ def eval_cases(ctx, cases):
             if "ok" in c["impl"] and c["level"] <= 3:
                 reqs.append({"suite": "c12", "op": "chips", "r": c["impl"]["ok"]})
                 idx.append((c, "chips"))
+            continue
+        if c["kind"] == "subtree":
+            c["impl"] = impl_subtree(c["x"], c["y"], c["level"], c["points"])
+            reqs.append({"suite": "c12", "op": "subtree", "x": c["x"], "y": c["y"], "level": c["level"],
+                         "targets": c["points"]})
+            idx.append((c, "model"))
             continue
         targets = build_targets(c)
         order = [[x, y, p] for (x, y), cs in targets.items() for p in cs]
@@ -310,7 +401,12 @@ def eval_cases(ctx, cases):
             reqs.append({"suite": "c12", "op": "oracle", "targets": sorted(order), "out": c["impl"]["ok"],
                          "queries": queries(c, order)})
             idx.append((c, "oracle"))
-    for (c, what), r in zip(idx, ctx.lean(reqs)):
+    return reqs, idx
+
+
+def finish(ctx, cases, idx, replies):
+    """compare implementation and model, apply the oracle verdicts (in case order)"""
+    for (c, what), r in zip(idx, replies):
         c[what] = r
     for c in cases:
         desc = {k: v for k, v in c.items() if k in ("kind", "shapes", "order", "points", "x", "y", "level")}
@@ -330,6 +426,16 @@ def eval_cases(ctx, cases):
                                   "get_region_for_chip(%d, %d, %d) = %#x does not select the chip itself"
                                   % (c["x"], c["y"], c["level"], c["impl"]["ok"]), desc)
             ctx.case(desc, c["level"] == 3)
+            continue
+        if c["kind"] == "subtree":
+            if c["impl"] != c["model"]:
+                ctx.mismatch("c12.subtree", "RegionCoreTree(%d, %d, %d): tree state / add_core returns / yield differ: "
+                             "impl=%s model=%s" % (c["x"], c["y"], c["level"], str(c["impl"])[:300],
+                                                   str(c["model"])[:300]), desc)
+            full = "ok" in c["impl"] and any(c["impl"]["ok"]["returns"])
+            ctx.tag("subtree_level%d_%s" % (c["level"], "err" if "err" in c["impl"] else
+                                            "reports_full" if full else "partial"))
+            ctx.case(desc, full)
             continue
         if c["impl"] != c["model"]:
             ctx.mismatch("c12.compress", "impl=%s model=%s" % (str(c["impl"])[:300], str(c["model"])[:300]), desc)
@@ -356,6 +462,8 @@ def eval_cases(ctx, cases):
                 ctx.tag("several_core_masks")
             nontriv = len(out) >= 2 or any(l < 3 for l in levels)
             o = c["oracle"]
+            if not o["nodup"]:      # hypothesis of exactB_iff, decided by the driver (nodupB_iff)
+                raise RuntimeError("harness error: the oracle was given a target list with repetitions")
             if o["exact"] == bool(o["bad"]):
                 ctx.tag("oracle_enumeration_vs_pointwise_differ" if o["exact"] else "oracle_nonexact_sample_missed")
             for key, bad, what in (
@@ -397,10 +505,11 @@ def run(ctx):
         "semantics of a region word as documented in regions.py / _send_ffcs (written independently in Lean as `selects`); "
         "that SC&MP implements this semantics is trusted",
         "the insertion order used by the implementation is the iteration order of the targets dict and its sets",
-        "the enumerating oracle exactB (expansion of every word through chipsOf, proved equal to `selects` by "
-        "chipsOf_spec, compared as sorted lists) is not itself proved equivalent to `Exact`; it is cross-checked on "
-        "every case by evaluating the literal `countSel` on sampled targets and non-targets"]
-    n = ctx.scale(1500, 20000)
+        "the enumerating oracle (exactB, strictB) is proved to decide `Exact` / `StrictlyIncreasing` for target lists "
+        "without repetition (exactB_iff, strictB_iff); that hypothesis is decided by the driver on every call "
+        "(nodupB, nodupB_iff) and a repetition would be reported as a harness error; the literal `countSel` is still "
+        "evaluated on sampled targets and non-targets as a redundant cross-check"]
+    n = ctx.scale(1500, 30000)
     nreg = ctx.scale(3000, 0)
     if ctx.extended:
         n *= 4
@@ -419,6 +528,7 @@ def run(ctx):
             cases.append(gen_case(rng, not ctx.quick))
     # whole machine, one core: the root keeps 0xffff (the only node that may)
     cases.append({"kind": "compress", "shapes": [["rect", 0, 0, 256, 256, [rng.randrange(18)]]], "order": 1})
+    cases += [gen_subtree(rng) for _ in range(ctx.scale(300, 3000) * (4 if ctx.extended else 1))]
     if ctx.quick:
         cases += region_cases(ctx, nreg)
     else:
@@ -426,8 +536,24 @@ def run(ctx):
         cases += [{"kind": "region", "x": x, "y": y, "level": l} for x in range(0, 256, 3) for y in range(0, 256, 5)
                   for l in (0, 1, 2, 4)]
         cases.append({"kind": "compress", "shapes": [["rect", 0, 0, 256, 256, [1]], ["hole", 255, 255, [1]]], "order": 2})
-    for i in range(0, len(cases), 400):
-        eval_cases(ctx, cases[i:i + 400])
+    # the batches are independent: WORKERS forked processes run implementation + model driver on them; the verdicts
+    # are applied here strictly in case order, so the result does not depend on timing or on WORKERS
+    batches = [cases[i:i + 400] for i in range(0, len(cases), 400)]
+    pool = None
+    if len(batches) > 1:
+        try:
+            import multiprocessing
+            pool = multiprocessing.get_context("fork").Pool(WORKERS)
+        except (OSError, ValueError, ImportError):
+            pool = None
+    try:
+        for batch, idx, replies, n in (pool.imap(work, batches) if pool else map(work, batches)):
+            ctx.driver.calls += n
+            finish(ctx, batch, idx, replies)
+    finally:
+        if pool is not None:
+            pool.terminate()
+            pool.join()
     ctx.extra.pop("_shrunk", None)
 
 
